@@ -279,6 +279,7 @@ impl OPath {
     }
 }
 /// fingerprint tuple out of a canonical path string (model side)
+#[allow(dead_code)]
 fn fpr_of_canon(c: &str) -> Option<String> {
     let f: Vec<&str> = c.split('|').collect();
     if f.len() != 6 {
@@ -1006,7 +1007,7 @@ fn enumerate_spec(c: &Case) -> BTreeSet<Vec<(u64, u16)>> {
 }
 
 /// C04 checks on the implementation's output for a well-formed set
-fn c04_spec(c: &Case, t: &Topo, out: &[OPath], spec: &mut Vec<(String, String)>) {
+fn c04_spec(c: &Case, topo: Option<&Topo>, out: &[OPath], spec: &mut Vec<(String, String)>) {
     let mut seen_ifs: HashMap<Vec<(u64, u16)>, usize> = HashMap::new();
     let mut seen_fpr = HashSet::new();
     let mut last_len = 0usize;
@@ -1039,8 +1040,31 @@ fn c04_spec(c: &Case, t: &Topo, out: &[OPath], spec: &mut Vec<(String, String)>)
         if got != want {
             spec.push(("C04:interfaces-match-hops".into(), format!("path {pi}: metadata interface ids {got:?} but the hop fields encode {want:?}")));
         }
-        // links and ASes of the topology
-        let mut ok_links = p.ifs.len() % 2 == 0 && !p.ifs.is_empty();
+        // links and ASes of the topology (interface list must pair up into links even without one)
+        if topo.is_none() {
+            let mut ok = p.ifs.len() % 2 == 0 && !p.ifs.is_empty();
+            let mut seq = vec![];
+            for k in (0..p.ifs.len().saturating_sub(1)).step_by(2) {
+                if k > 0 && p.ifs[k - 1].0 != p.ifs[k].0 {
+                    ok = false;
+                }
+                if k == 0 {
+                    seq.push(p.ifs[k].0);
+                }
+                seq.push(p.ifs[k + 1].0);
+            }
+            let set: HashSet<_> = seq.iter().collect();
+            if !ok {
+                spec.push(("C04:interfaces-are-links".into(), format!("path {pi}: interface list {:?} does not pair up into links", p.ifs)));
+            } else if set.len() != seq.len() {
+                spec.push(("C04:loop-free".into(), format!("path {pi} visits an AS twice: {seq:?}")));
+            }
+        }
+        let t = match topo {
+            Some(t) => t,
+            None => &Topo::default(),
+        };
+        let mut ok_links = topo.is_some() && p.ifs.len() % 2 == 0 && !p.ifs.is_empty();
         let mut mtu = u32::MAX;
         let mut as_seq = vec![];
         if ok_links {
@@ -1065,7 +1089,8 @@ fn c04_spec(c: &Case, t: &Topo, out: &[OPath], spec: &mut Vec<(String, String)>)
                 as_seq.push(b.0);
             }
         }
-        if !ok_links {
+        if topo.is_none() {
+        } else if !ok_links {
             spec.push(("C04:interfaces-are-links".into(), format!("path {pi}: interface list {:?} is not a chain of links of the topology", p.ifs)));
         } else {
             for a in &as_seq {
@@ -1145,8 +1170,9 @@ fn evaluate(c: &Case, lean: &mut Lean, prop: &str, time_limit_us: u128) -> Outco
                 if m.panic || !m.raw.starts_with("ok") {
                     disagree = true;
                 } else if m.tie {
-                    let a: BTreeSet<String> = o.paths.iter().map(|p| p.fpr()).collect();
-                    let b: BTreeSet<String> = m.paths.iter().filter_map(|p| fpr_of_canon(p)).collect();
+                    // de-duplication key = interface list (field 4 of the canonical form)
+                    let a: BTreeSet<String> = o.paths.iter().map(|p| p.canon().split('|').nth(4).unwrap_or("").to_string()).collect();
+                    let b: BTreeSet<String> = m.paths.iter().map(|p| p.split('|').nth(4).unwrap_or("").to_string()).collect();
                     disagree = a != b || o.paths.len() != m.paths.len();
                 } else {
                     let a: Vec<String> = o.paths.iter().map(|p| p.canon()).collect();
@@ -1154,9 +1180,7 @@ fn evaluate(c: &Case, lean: &mut Lean, prop: &str, time_limit_us: u128) -> Outco
                 }
             }
             if prop == "C04" {
-                if let Some(t) = &c.topo {
-                    c04_spec(c, t, &o.paths, &mut spec);
-                }
+                c04_spec(c, c.topo.as_deref(), &o.paths, &mut spec);
             }
         }
     }
@@ -1395,10 +1419,13 @@ fn main() {
             rep.disagree(&format!("combine/{}", c.kind), case_json(&small), &o2.imp, &o2.model);
         }
         for (key, what) in &o.spec {
-            if !seen_spec.insert(format!("{key}|{}", c.kind)) && seen_spec.len() > 40 {
+            // shrink and report the first three cases of every key, count the rest
+            let n_same = seen_spec.iter().filter(|k| k.starts_with(&format!("{key}|"))).count();
+            if n_same >= 3 {
                 rep.hit(&format!("SPECFAIL {key}"));
                 continue;
             }
+            seen_spec.insert(format!("{key}|{}", rep.traces));
             let k = key.clone();
             let p = prop.clone();
             let topo = c.topo.clone();
